@@ -39,7 +39,7 @@ Proof. exact tramp_bool_ok. Qed.
 Print Assumptions C10_bool_stub_arm64.
 
 (* the constants of the model's encoder are those of the current Rust source (gen/SrcConsts.v is regenerated from it on every run) *)
-From Inj Require Import SrcTie.
+From Inj Require Import SrcTieAmd64Bool.
 From Inj.gen Require Import SrcConsts.
 Import Inj.Base Inj.EncAmd64.
 Theorem C10_source_bool_stub : forall v, bool_stub v = set_nth (Z.to_nat AMD64_BOOL_VALUE_INDEX) (Z.b2z v) AMD64_BOOL_STUB.
